@@ -57,6 +57,14 @@ def check(tree, rep, tier='quick', seed=0):
                 rep.ob('R8.1', f'{key0}/{status}', ok,
                        f'{y} {e["id"]} for {status}: {e["line"]} uses {have} ({e["role"]} {e["sig"]}) but the published value is {want}', _where(an, y, e['line']),
                        sample={'year': y, 'amount': e['id'], 'status': status, 'site': f'{e["line"]} {e["role"]} {e["sig"]}', 'value': want})
+        # ---- R8.4 a lookup is a function of (form, amount name, status): no state kept between lookups
+        site_lines = {e['line'] for e in table if e['year'] == y}
+        for d in an.defs.values():
+            if d.year != y or f'{d.fr.name}.{d.name}' not in site_lines:
+                continue
+            eff = sorted({str(data) for p in d.paths for (kind, data, _n, _r) in p.events if kind == 'effect'})
+            rep.ob('R8.4', f'{y}/{d.fr.name}.{d.name}/stateless-lookup', not eff,
+                   f'{y} {d.fr.name}.{d.name} looks its statutory amount up through code that keeps state ({eff[:2]}): the value returned may be one cached for another form or status', d.where)
         # ---- R8.3 amounts printed on the template
         for fr in cat.forms(y):
             if not fr.pdf_file or not isinstance(fr.pdf_fields, list):
